@@ -675,7 +675,7 @@ func parent(f gallina.Flags) {
 	}
 
 	corpus := []Workload{corpusMixedMerge(), corpusDeleteStraddle(), corpusOOORace(), corpusKindPairs(),
-		genKindsWorkload(gen.Fork(f.Seed^0x6b696e64, 0), "kinds-random", 24)}
+		genKindsWorkload(gen.Fork(f.Seed^0x6b696e64, 0), "kinds-random", f.Count(12, 40))}
 	for wi := -len(corpus); wi < nWork; wi++ {
 		var w Workload
 		rate := snapRate
@@ -686,7 +686,10 @@ func parent(f gallina.Flags) {
 				rate = 1000 // small workloads: every hit
 			}
 			if w.Kinds {
-				rate = 40 // many short transactions: a sample of their hits
+				rate = 0 // many short transactions: the first hit of each kind, and after every acknowledgement
+				if f.Tier == "thorough" {
+					rate = 300
+				}
 			}
 		} else {
 			ph := phases
